@@ -115,8 +115,12 @@ func (s *Stream) Write(p []byte) (int, error) {
 		room := func() bool { return s.cfg.Cap <= 0 || s.queued == 0 || s.queued+c <= s.cfg.Cap || s.rclosed || s.cut || s.wclosed }
 		if s.Drv != nil {
 			s.mu.Unlock()
-			s.Drv.ParkUntil(s.Name, "net-write", s.Name, func() bool { s.mu.Lock(); defer s.mu.Unlock(); return room() })
-			s.mu.Lock()
+			func() {
+				// re-lock even when the driver aborts the run by panicking out of
+				// the park: the deferred Unlock above must find the mutex held
+				defer s.mu.Lock()
+				s.Drv.ParkUntil(s.Name, "net-write", s.Name, func() bool { s.mu.Lock(); defer s.mu.Unlock(); return room() })
+			}()
 			if !room() || s.rclosed || s.cut || s.wclosed {
 				continue
 			}
